@@ -91,6 +91,8 @@ func NewWalkEnv(p *Prog) *WalkEnv {
 	in := w.In
 	in.ForgetAll = true
 	in.EagerWiden = true
+	in.Variant = func(key string) bool { return strings.Contains(key, ".MapRange()") || strings.Contains(key, "next:") }
+	in.SnapshotPC = true
 	in.Monitored = map[string]bool{}
 	in.MaxLoop = 8
 	in.ResetHook = func() {
@@ -154,7 +156,7 @@ func (w *WalkEnv) set(key string, m uint32) {
 	key = kindKey(key)
 	old, had := w.kset[key]
 	w.kset[key] = m
-	w.In.Journal(func() {
+	w.In.Journal(key, func() {
 		if had {
 			w.kset[key] = old
 		} else {
@@ -266,6 +268,10 @@ func (w *WalkEnv) install() {
 				ks = append(ks, keyOf(x))
 			}
 			rk := key + "." + m + "(" + strings.Join(ks, ", ") + ")"
+			if m == "Elem" && w.get(key)&^kmask(reflect.Interface) == 0 {
+				// the dynamic value of an interface is never itself of kind Interface
+				w.set(rk, allKinds&^kmask(reflect.Interface))
+			}
 			switch m {
 			case "IsZero":
 				return Sym{K: "zero(" + key + ")", T: types.Typ[types.Bool]}, true
